@@ -52,5 +52,13 @@ try:
 finally:
     shutil.rmtree(scratch, ignore_errors=True)
 meta["caught_by"] = [p for p, r in meta["checks"].items() if r["exit"] == 1]
+if os.path.exists(d + "/meta.json"):
+    try:
+        old = json.load(open(d + "/meta.json"))
+        for k in ("needs_to_manifest", "detection_history"):
+            if k in old:
+                meta[k] = old[k]
+    except Exception:
+        pass
 json.dump(meta, open(d + "/meta.json", "w"), indent=1)
 print(json.dumps(meta, indent=1))
